@@ -306,3 +306,19 @@ func roTailStr(w *mon.W, s string) (string, func(), bool) {
 	w.Bucket("string-at-the-end-of-its-mapping")
 	return v, rel, true
 }
+
+// hugeZeroBytes / hugeZeroWords: an argument of hundreds of megabytes as an anonymous mapping - zero pages that cost
+// nothing until they are written, and that go back to the system at once when the case is done (a Go-heap allocation of
+// that size is zeroed by hand when its address range is reused, which touches every page).
+func hugeZeroBytes(n int) ([]byte, func()) {
+	mem, err := syscall.Mmap(-1, 0, n, syscall.PROT_READ|syscall.PROT_WRITE, syscall.MAP_ANON|syscall.MAP_PRIVATE)
+	if err != nil {
+		return make([]byte, n), func() {}
+	}
+	return mem[:n:n], func() { syscall.Munmap(mem) }
+}
+
+func hugeZeroWords(n int) ([]uint64, func()) {
+	b, rel := hugeZeroBytes(8 * n)
+	return unsafe.Slice((*uint64)(unsafe.Pointer(&b[0])), n), rel
+}
